@@ -237,6 +237,13 @@ func (b *B) BigInt(v int64) {
 	b.post("Val", 0, 0)
 }
 
+// ValWithUnit pushes a literal with a unit (XGo: 5m) of a named type that has a unit table.
+func (b *B) ValWithUnit(lit string, t types.Type, unit string) {
+	b.pre("ValWithUnit")
+	b.cb.ValWithUnit(&ast.BasicLit{Kind: token.INT, Value: lit}, t, unit)
+	b.post("Val", 0, 0)
+}
+
 // VBlock opens a virtual block (a scope without braces).
 func (b *B) VBlock() { b.pre("VBlock"); b.cb.VBlock(); b.post("Open:vblock", 0, 0) }
 
@@ -253,6 +260,15 @@ func (b *B) Discard(n int) {
 	b.pre("Discard")
 	b.cb.InternalStack().PopN(n)
 	b.post("Discard", n, 0)
+}
+
+// ReturnShort is Return(n) issued although the result operands failed to compile and were
+// never pushed (documented: the statement is still recorded as a return, the stack is left
+// alone).
+func (b *B) ReturnShort(n int) {
+	b.pre("Return")
+	b.cb.Return(n)
+	b.post("Return!short", n, 0)
 }
 
 // EndInitFailed tells the observers that EndInit reported an error. EndInit cleans up after
